@@ -231,7 +231,9 @@ let () =
   Hashtbl.replace replays "cell" cell_replay;
   Hashtbl.replace listfuns "traits_rc" traits_line;
   Hashtbl.replace listfuns "traits_snap" traits_line;
-  Hashtbl.replace listfuns "chain" chain_line
+  Hashtbl.replace listfuns "chain" chain_line;
+  Hashtbl.replace listfuns "guard" guard_line;
+  Hashtbl.replace listfuns "tls" tls_line
 
 (* evaluate the executable count invariant (RcCheck.rc_invcheck) after every step of every rc case *)
 let inv file =
